@@ -15,11 +15,11 @@ from . import common
 from .common import Leaf
 from .c16 import cmp_obs
 
-REQUIRED_WITNESSES = ['C', 'P']
-BOUNDS = {'quick': 'back-end products: requests with 15..33-byte symbolic targets and responses with 15..33-byte symbolic header values (crossing the 16/32-byte vector loops and their tails; also buffers cut inside a 17..70-byte target / value), header blocks <= 6 bytes, request buffers <= 6 bytes; profile products: requests <= 6, responses <= 9, header blocks <= 6, chunk sizes <= 4 bytes; runtime cell: all 3 CPU kinds x cell in {0,d} x scanner buffers 0..=40; lattice: all assignments of 4 cfg atoms x 3 architectures',
+REQUIRED_WITNESSES = ['C', 'P', 'stop:inside']
+BOUNDS = {'quick': 'back-end products: requests with 15..33-byte symbolic targets and responses with 15..33-byte symbolic header values (crossing the 16/32-byte vector loops and their tails; also buffers cut inside a 17..70-byte target / value), header blocks <= 6 bytes, request buffers <= 6 bytes; i686 build (32-bit usize, 4-byte words) vs reference: header blocks <= 8, requests <= 6, values/targets crossing the 4-byte words; profile products: requests <= 6, responses <= 9, header blocks <= 6, chunk sizes <= 4 bytes; runtime cell: all 4 CPU kinds x every reachable cell value before every atomic operation x scanner buffers of 0..40 bytes; lattice: all assignments of 4 cfg atoms x 3 architectures',
           'thorough': 'targets/values to 70 bytes; header blocks <= 8; requests <= 8; responses <= 11; chunk <= 6'}
-OUTSIDE = 'that rustc accepts all 32 switch combinations (9 variants are built every run to obtain their MIR; C19 builds 16 no_std combinations); i686 and aarch64 cannot be replayed natively; big-endian targets'
-EXPLANATION = 'thread timing is decided as an invariant of the single relaxed atomic cell rather than by racing threads: with I = {0, d}, every store on every path writes d (I is preserved by any step of any thread from any reachable cell value) and get_runtime_feature returns d whatever it loaded'
+OUTSIDE = 'the i686 build is checked against the reference model, not pairwise with x86-64 (one engine instance has one pointer width); that rustc accepts all 32 switch combinations (9 variants are built every run to obtain their MIR; C19 builds 16 no_std combinations); i686 and aarch64 cannot be replayed natively; big-endian targets'
+EXPLANATION = 'thread timing is decided over all interleavings rather than by racing threads: the cache cell is the only shared state; before every atomic operation the environment may have set it to any value of the reachable set R (fixpoint of the values any path of the dispatch code can store, starting from the initial 0); for every such schedule and every CPU kind the dispatcher must return normally, stop exactly, and enter only target_feature functions the CPU supports'
 ASSUMPTIONS = ['is_x86_feature_detected! is a pure function of the CPU, constant for the life of the process', 'Relaxed load/store on one AtomicU8 are single atomic operations']
 
 
@@ -54,52 +54,6 @@ def leaf_variants(E, params):
     return rec
 
 
-def leaf_cell(E, params):
-    """get_runtime_feature from any cell value in the invariant set; dispatch only into functions whose feature the CPU has"""
-    E.use('x86-rt')
-    L = params['L']; fn = params['fn']
-    m0 = sym.MASK256 & ~(1 << 9) if 'value' in fn else sym.MASK256     # HTAB is re-examined bytewise by the word scanner: 2^L paths
-    cells = [IntV(8, sym.var_node(E.new_var(m0, 'b%d' % i))) for i in range(L)]
-    cpu = install_cpu(E)
-    entered = []
-    def on_call(path, f, args):
-        if f is not None and (f.name.startswith('avx2::') or f.name.startswith('sse42::')): entered.append(f.name.split('::')[0])
-    E.hooks['call'] = on_call
-    obl = 0; bad = []
-    try:
-        if fn == 'get_runtime_feature':
-            r = E.call_func(E.resolve('get_runtime_feature'), [])
-            # d for this CPU
-            a = E.branch_bool(cpu['avx2']); d = 1 if a else (2 if E.branch_bool(cpu['sse42']) else 3)
-            obl += 3
-            if not r.conc() or r.v != d: bad.append(f'get_runtime_feature returned {r} but the CPU detects {d}')
-            if d == 0: bad.append('detected feature is 0, indistinguishable from "not yet detected"')
-            for v in cpu['stores']:
-                obl += 1
-                if not v.conc() or v.v != d: bad.append(f'store of {v} != detected {d}')
-        else:
-            bv = E.call_func(E.by_method[(None, 'Bytes', 'new')], [Ref(cells, (0,), L, 'buf')]); box = [bv]
-            E.call_func(E.resolve(fn), [Ref(box, (0,), None, 'local')])
-            for nm in entered:
-                obl += 1
-                flag = cpu['avx2'] if nm == 'avx2' else cpu['sse42']
-                has = E.branch_bool(flag)
-                if not has: bad.append(f'dispatch entered a #[target_feature(enable = "{nm}")] function on a CPU without {nm}')
-        bad += cpu['bad']
-    except Panic as e:
-        bad.append(f'panic: {e}')
-    finally:
-        E.hooks.pop('call', None)
-    viol = []
-    if bad:
-        wit = E.witness() or {}
-        viol.append({'prop': 'C13', 'msg': bad[0], 'scenario': f'{fn} with symbolic CPU and cell', 'kind': 'cell', 'api': '-', 'variant': 'x86-rt', 'flags': 0, 'cap': 0,
-                     'buf': bytes((wit.get(i) or 0x61) for i in range(L)).hex(), 'predicted': None, 'rel': 'cell',
-                     'cpu': {k: str(E.dom.get(getattr(cpu[k].v, 'var', None))) for k in ('avx2', 'sse42', 'cached')}})
-    lab = 'cell:' + ('bad' if bad else 'ok')
-    return {'outcome': lab, 'obligations': obl, 'violations': viol, 'witnesses': {lab: 1, 'C': 1, 'P': 1}}
-
-
 def jobs(tier, seed):
     P = 'C13'; G = ['same']; J = []
     bud = T(tier, 100, 900)
@@ -129,6 +83,20 @@ def jobs(tier, seed):
                     'response start line + every {n}-byte header block, 4 header options symbolic: word-at-a-time vs ' + v2, 4, variants=['swar-rel', v2], extra={'variant2': v2, 'space_mul': 8 if v2.startswith('x86-rt') else 1}, **kw)
         J += deepen(P, G, f'req-swar-vs-{v2}', lambda n, v2=v2: sc('req', n, api='cfg', fl=flags(multi_sp_req='sym'), cap=1), range(T(tier, 6, 5), T(tier, 6, 8) + 1), bud,
                     'request, every {n}-byte buffer: word-at-a-time vs ' + v2, 5, variants=['swar-rel', v2], extra={'variant2': v2, 'space_mul': 8 if v2.startswith('x86-rt') else 1}, **kw)
+    # 32-bit build (BLOCK_SIZE 4, 32-bit usize): whole parser against the reference
+    J += deepen(P, ['ref', 'safety'], 'i686-headers', lambda n: sc('headers', n, cap=2, variant='i686-swar'), range(T(tier, 7, 5), T(tier, 8, 10) + 1), bud,
+                'parse_headers on the i686 build vs reference, every {n}-byte buffer', 6)
+    J += deepen(P, ['ref', 'safety'], 'i686-req', lambda n: sc('req', n, api='cfg', fl=flags(multi_sp_req='sym'), cap=1, variant='i686-swar'), range(T(tier, 6, 5), T(tier, 6, 8) + 1), bud,
+                'request on the i686 build vs reference, every {n}-byte buffer', 5)
+    J += deepen(P, ['ref', 'safety'], 'i686-resp-hdr', lambda n: sc('resp', n, prefix=RESP_LINE, api='cfg', fl=RESP_HDR_SYM, cap=1, variant='i686-swar'), range(T(tier, 5, 4), T(tier, 5, 7) + 1), bud,
+                'response on the i686 build vs reference, start line + every {n}-byte header block, 4 header options symbolic', 4)
+    for L in (3, 4, 5, 7, 8, 9, 12, 13):
+        jb = product_job(P, f'i686-value-L{L}', ['ref', 'safety'], sc('headers', L, prefix=b'N: ', suffix=b'\r\n\r\n', cap=1, variant='i686-swar', fixed={i: NOEOL for i in range(L)}), bud,
+                         f'i686 build: "N: " + {L} symbolic value bytes + CRLFCRLF vs reference', family='i686-value')
+        jb.small = True; J.append(jb)
+        jb = product_job(P, f'i686-target-L{L}', ['ref', 'safety'], sc('req', L, prefix=b'GET ', suffix=b' HTTP/1.1\r\n\r\n', api='parse', cap=1, variant='i686-swar', fixed={i: NOSP for i in range(L)}), bud,
+                         f'i686 build: request with a {L}-byte symbolic target vs reference', family='i686-target')
+        jb.small = True; J.append(jb)
     # profile: release vs debug assertions
     for a, b in (('swar-rel', 'swar-dbg'), ('x86-rt', 'x86-rt-dbg')):
         J += deepen(P, G, f'profile-req-{a}', lambda n, a=a: sc('req', n, api='cfg', fl=flags(multi_sp_req='sym'), cap=1, variant=a), range(T(tier, 6, 5), T(tier, 6, 8) + 1), bud,
@@ -145,11 +113,14 @@ def jobs(tier, seed):
             jb = product_job(P, f'profile-chunk-digits{nd}-{pre.decode()}', G, sc('chunk', 2, prefix=pre * (nd - 2), suffix=b'\r\n', variant='swar-rel', fixed={0: HEX, 1: HEX}), bud,
                              f'{nd - 2} x "{pre.decode()}" + 2 symbolic hex digits + CRLF: release MIR vs debug MIR', fn='mirse.props.c09.leaf_profiles', variants=['swar-rel', 'swar-dbg'])
             jb.small = True; J.append(jb)
-    # runtime-feature cell
-    for fn, Ls in (('get_runtime_feature', (0,)), ('runtime::match_uri_vectored', (0, 8, 16, 33, 40)), ('runtime::match_header_value_vectored', (0, 8, 16, 33, 40))):
-        for L in Ls:
-            params = {'variants': ['x86-rt'], 'fn': fn, 'L': L, 'prop': P, 'xcheck_every': 0}
-            jb = Job(f'cell-{fn.split("::")[-1]}-L{L}', 'mirse.props.c13.leaf_cell', params, bud, f'{fn}: CPU features and cache cell symbolic' + (f', {L}-byte symbolic buffer' if L else ''), groups=['same'])
+    # runtime-feature cell: the dispatcher under EVERY interleaving of first calls (cell = any reachable value before each atomic
+    # operation, reachable set computed as a fixpoint over the dispatch code), on all four CPU kinds
+    NOTAB = [b for b in range(256) if b != 9]
+    for fn, cls in (('runtime::match_uri_vectored', 'uri'), ('runtime::match_header_value_vectored', 'value'), ('runtime::match_header_name_vectored', 'name')):
+        for L in (0, 1, 8, 16, 17, 33, 40):
+            params = {'variants': ['x86-rt'], 'fn': fn, 'cls': cls, 'L': L, 'tag': 'runtime', 'fixed': ({i: NOTAB for i in range(L)} if cls == 'value' else None), 'prop': P, 'xcheck_every': 0}
+            jb = Job(f'cell-{fn.split("::")[-1]}-L{L}', 'mirse.props.c12.leaf_scan', params, bud, f'{fn}: CPU features symbolic, cache cell = any reachable value at every atomic operation, {L}-byte symbolic buffer: '
+                     'returns normally, exact stop, only enters target_feature functions the CPU has', family='cell-' + cls, groups=['ref'])
             jb.small = True; J.append(jb)
     return J
 
